@@ -261,6 +261,63 @@ fn main() {
             // the compiler prints progress on stdout; the result goes to a file
             std::fs::write(req["result_path"].as_str().unwrap(), res.to_string()).unwrap();
         }
+        Some("api-seq") => {
+            // Settings configured by an arbitrary SEQUENCE of builder calls (order matters)
+            let req: Value = serde_json::from_str(&std::fs::read_to_string(&args[2]).unwrap()).unwrap();
+            let grammar = PathBuf::from(req["grammar_path"].as_str().unwrap());
+            let out = PathBuf::from(req["out_dir"].as_str().unwrap());
+            let calls = req["calls"].as_array().unwrap().clone();
+            let root = grammar.parent().unwrap().to_path_buf();
+            let r = catch(move || {
+                let mut st = Settings::new().root_dir(root).out_dir_root(out.clone()).out_dir_actions_root(out);
+                for c in calls {
+                    let m = c[0].as_str().unwrap();
+                    let a = &c[1];
+                    let b = a.as_bool().unwrap_or(false);
+                    let t = a.as_str().unwrap_or("");
+                    st = match m {
+                        "parser_algo" => st.parser_algo(if t == "glr" { ParserAlgo::GLR } else { ParserAlgo::LR }),
+                        "table_type" => st.table_type(match t {
+                            "lalr" => TableType::LALR,
+                            "pager" => TableType::LALR_PAGER,
+                            _ => TableType::LALR_RN,
+                        }),
+                        "prefer_shifts" => st.prefer_shifts(b),
+                        "prefer_shifts_over_empty" => st.prefer_shifts_over_empty(b),
+                        "most_specific" => st.lexical_disamb_most_specific(b),
+                        "longest_match" => st.lexical_disamb_longest_match(b),
+                        "grammar_order" => st.lexical_disamb_grammar_order(b),
+                        "partial_parse" => st.partial_parse(b),
+                        "skip_ws" => st.skip_ws(b),
+                        "generator_table_type" => st.generator_table_type(if t == "arrays" {
+                            GeneratorTableType::Arrays
+                        } else {
+                            GeneratorTableType::Functions
+                        }),
+                        "builder_type" => st.builder_type(match t {
+                            "generic" => BuilderType::Generic,
+                            "custom" => BuilderType::Custom,
+                            _ => BuilderType::Default,
+                        }),
+                        "lexer_type" => st.lexer_type(if t == "custom" { LexerType::Custom } else { LexerType::Default }),
+                        "builder_loc_info" => st.builder_loc_info(b),
+                        "force" => st.force(b),
+                        "actions_in_source_tree" => st.actions_in_source_tree(),
+                        _ => st,
+                    };
+                }
+                st.process_grammar(&grammar)
+            });
+            let res = match r {
+                Ok(Ok(())) => json!({"outcome": "ok", "class": "", "msg": ""}),
+                Ok(Err(e)) => {
+                    let (class, msg) = classify_error(&e);
+                    json!({"outcome": "err", "class": class, "msg": msg})
+                }
+                Err(p) => json!({"outcome": "panic", "class": "panic", "msg": p}),
+            };
+            std::fs::write(req["result_path"].as_str().unwrap(), res.to_string()).unwrap();
+        }
         Some("batch") => {
             let cases = std::fs::read_to_string(&args[2]).unwrap();
             let mut out = std::fs::File::create(&args[3]).unwrap();
